@@ -75,7 +75,7 @@ def patterns(fam):
             (I(L('Spd')), L('Spd')), (L('Spd'), I(L('Spd'))), (I(L('D')), L('D')), (L('D'), I(L('D'))),
             (('lazyI', L('Dp')), L('Dp')), (L('Dp'), ('lazyI', L('Dp'))),
             (I(('@', L('Spd'), L('Spd2'))), L('Spd')), (I(('+', L('Spd'), L('Spd2'))), L('A')),
-            (L('U'), T(L('U'))), (T(L('U')), L('U')), (L('P'), T(L('P'))), (T(L('P')), L('P')),
+            (L('U'), T(L('U'))), (T(L('U')), L('U')), (L('P'), T(L('P'))), (T(L('P')), L('P')), (T(L('Pa')), L('Pa')), (L('Pa'), T(L('Pa'))),
             (L('Mk'), T(L('Mk'))), (T(L('Mk')), L('Mk')), (L('Sl'), T(L('Sl'))), (T(L('Sl')), L('Sl')),
             (T(L('Rs')), L('Rs')), (L('Rs'), T(L('Rs'))), (L('Rs0'),), (L('Rs0'), L('k')),
             (L('k'), T(L('P')), L('P'), L('k2')), (T(L('P')), L('P'), T(L('P')), L('P')),
